@@ -31,6 +31,8 @@ def instr_of(m):
         return (p, int(args[0]['int']) if args else 1)
     if p in ('DIG', 'DUG') and len(args) == 1:
         return (p, int(args[0]['int']))
+    if p in ('PAIR', 'UNPAIR', 'GET', 'UPDATE') and len(args) == 1 and 'int' in args[0]:
+        return (p + 'N', int(args[0]['int']))
     if p == 'PUSH' and len(args) == 2:
         t = ty_of(args[0])
         try:
